@@ -181,7 +181,7 @@ impl SubCheck for Adv {
             Family::WrongAlpha => "one layer folded with a challenge different from the drawn one; crafted variant: f(x) = A(y^N) + y B(y^N), y = x^(N^i), A = low - alpha' B, so that the wrong challenge at layer i makes every later layer and the remainder perfectly low-degree (only the consistency check of that one folding step can notice)",
             Family::Structure => "honest folding of a bad function, then layer i omitted / duplicated / layers i,j swapped in the proof (and optionally in the commitment list before the challenges and positions are derived from it)",
         };
-        format!("{what}; functions: uniformly random / polynomial of degree bound+1..domain-1 / polynomial within the bound changed on 1 .. D/2 positions; schedules well-formed by construction, D = 2^3..2^10 mostly, up to 2^12 quick / 2^14 thorough, folding 2/4/8/16, 1..255 queries from the verifier's coin (duplicates kept), 33 element-type x hasher combinations (Rescue sampled 1:6); non-trivial = function random, beyond the degree bound, or changed on >= 1/4 of the domain; distinct by (strategy, folding, #layers, remainder size, element type, function class)")
+        format!("{what}; functions: uniformly random / polynomial of degree bound+1..domain-1 / polynomial within the bound changed on 1 .. D/2 positions (values and coefficients expanded from a drawn 64-bit seed by a fixed mixing function, a pure function of the case); schedules well-formed by construction, D = 2^3..2^10 mostly, up to 2^12 quick / 2^14 thorough, folding 2/4/8/16, 1..255 queries from the verifier's coin (duplicates kept), 33 element-type x hasher combinations (Rescue sampled 1:6); non-trivial = function random, beyond the degree bound, or changed on >= 1/4 of the domain; distinct by (strategy, folding, #layers, remainder size, element type, function class)")
     }
     fn required_labels(&self, _t: Tier) -> Vec<String> {
         let mut v: Vec<String> = vec!["func=random".into(), "func=high-degree".into(), "func=corrupted".into(), "layers=1".into(), "layers>=3".into(), "duplicate-positions".into()];
